@@ -141,7 +141,12 @@ func ParseMxFunctionParameters(parameters string) ([]MurexFuncParam, error) {
 
 		case '\n':
 			switch context {
-			case fpcNameStart, fpcDescEnd, fpcDefaultEnd:
+			case fpcNameStart, fpcDescStart, fpcDescEnd, fpcDefaultEnd:
+				y++
+				x = 1
+			case fpcTypeRead:
+				// a new line ends the data type just like any other whitespace
+				context++
 				y++
 				x = 1
 			default:
